@@ -39,7 +39,7 @@ func runC02(c *Ctx, r *Rec) {
 	storage := c.fieldOfIface(set, "collection", "ListLike")
 	collF := c.fieldOfIface(set, "agent", "CollatorLike")
 	if storage == nil || collF == nil {
-		r.undecided("bind", "collection."+set.Obj().Name(), "", "cannot bind the storage (ListLike) and collator (CollatorLike) fields")
+		r.skip("bind", "collection."+set.Obj().Name(), "", "cannot bind the storage (ListLike) and collator (CollatorLike) fields")
 		return
 	}
 	ms := c.methodsOf(set)
